@@ -11,6 +11,16 @@ Edge kinds:
 from .facts import Ty
 
 
+# external traits whose impls for a local type T may be invoked by external generic code instantiated with T
+GENERIC_TRAITS = ("hash::Hash", "cmp::PartialEq", "cmp::Eq", "cmp::PartialOrd", "cmp::Ord", "clone::Clone", "ops::Drop",
+                  "default::Default", "fmt::Display", "fmt::Debug", "convert::AsRef", "convert::AsMut", "borrow::Borrow",
+                  "ops::Deref", "ops::DerefMut", "iter::Iterator", "iter::IntoIterator", "iter::Extend", "iter::FromIterator",
+                  "io::Read", "io::Write", "io::Seek", "ops::AddAssign", "ops::Add", "ops::Sub", "ops::SubAssign",
+                  "convert::From", "convert::Into", "convert::TryFrom", "ops::Index", "ops::IndexMut", "marker::Copy",
+                  "net::ToSocketAddrs", "os::fd::AsRawFd", "error::Error", "fmt::LowerHex", "fmt::UpperHex")
+# deliberately excluded (never called by containers / formatting): str::FromStr, serde::Serialize/Deserialize, structopt
+
+
 class CallGraph:
     def __init__(self, prog):
         self.prog = prog
@@ -23,6 +33,8 @@ class CallGraph:
         for im in prog.impls:
             tr = im.get("trait")
             if tr is None or tr in local_traits:
+                continue
+            if not any(tr == g or tr.endswith("::" + g) for g in GENERIC_TRAITS):
                 continue
             st = prog.ty(im["self_ty"]).deref()
             if st.k != "adt":
